@@ -13,10 +13,14 @@ CLAIMED = {
                 text="Seeded search over (file, storage, chunk-size schedule, interleaving, injected read error): every k from 1 to size+2 for each sampled file; chunked read must equal whole read entry by entry, plus byte conservation at the NumpyFileReader level. Sampling, not proof: bounded to files of <= 12 records.",
                 note="Trusts SimFS to implement the BufferedReader contract (full reads before EOF), the stdlib gzip module, and read() of the same bytes as the reference (C02 checks that reference against the format model).",
                 tech=TECH + "chunk-size sweep + per-call varying k + default-chunk knob + interleaved readers + one-shot EIO; oracle chunked==whole and byte conservation"),
+    "C02": dict(engine="iosim", cat="exploration", ref="§4 C02",
+                text="Seeded search: generated well-formed files (per-format grammar incl. non-canonical spellings, '.' placeholders, CRLF, missing final newline, gzip members) are parsed whole and under sampled / swept chunk schedules; every column of every batch is compared with the value an independent spec-level model assigns to the text. Sampling over bounded files (<= 14 records).",
+                note="Trusts the reference model bnpsim/models/text.py (plain int()/float()/split; cross-checked against the repo's example files in the self-test) and SimFS.",
+                tech=TECH + "store-model oracle (generated records) evaluated on every chunk-schedule-induced batch composition"),
 }
 
 _P = "check designed in DESIGN.md (simulated) but not built yet at this commit; not claimed until its check exists"
-PENDING = {k: _P for k in ["C02", "C03", "C04", "C05", "C11", "C12", "C15", "C16", "C17", "C20"]}
+PENDING = {k: _P for k in ["C03", "C04", "C05", "C11", "C12", "C15", "C16", "C17", "C20"]}
 
 NOT_APPLICABLE = {
     "C06": "pure function of (byte, alphabet): no storage, stream, history or shared state, so no scheduler or fault decision can change the outcome (DESIGN §4 C06)",
